@@ -13,7 +13,9 @@
    (i)  direction inference: a single-valued reference whose target table belongs to the source's own mapped hierarchy
         and that has no remote_side ([s_selfref]) is ONETOMANY: the foreign key is written on the TARGET's row
         (one column per row: the last writer wins) and read back as "the row whose column points to me";
-   (ii) a relationship(secondary=...) collection is flushed as a SET of (parent, element) pairs (first occurrences kept);
+   (ii) a relationship(secondary=...) collection is written with one association row per element, repetitions included
+        (the table has no key), but LOADING it yields every referenced row once (first occurrences): the ORM uniques
+        the entities of a collection load;
    (iii) polymorphic loading: the class of a loaded DAO is the discriminator of its root row, through whichever class
         of the chain the row is requested. *)
 From Coq Require Import List ZArith Bool Lia Arith PeanoNat.
@@ -101,7 +103,7 @@ Section Rows.
   Definition fk_of (a : addr) (o : obj) : list (key * Z * key) := flat_map (fk_of_fld a) (oflds o).
 
   Definition assoc_of_fld (a : addr) (f : fld) : list (key * Z * key) :=
-    if is_coll (fst f) then map (fun b => (K a, fst f, K b)) (dedup (snd f)) else [].
+    if is_coll (fst f) then map (fun b => (K a, fst f, K b)) (snd f) else [].
   Definition assoc_of (a : addr) (o : obj) : list (key * Z * key) := flat_map (assoc_of_fld a) (oflds o).
 
   Definition gather {X : Type} (g : addr -> obj -> list X) : list X :=
@@ -149,7 +151,8 @@ Section Load.
   Definition children (k : key) (t : Z) : list key := map snd (filter (cell_sel k t) (t_assoc D)).
 
   Definition load_fld (k : key) (t : Z) : fld :=
-    (t, idxs (if is_coll t then children k t else if is_selfref S t then selfref_sources k t else cell_val k t)).
+    (t, if is_coll t then dedup (idxs (children k t))
+        else idxs (if is_selfref S t then selfref_sources k t else cell_val k t)).
 
   Definition load_obj (k : key) (c : Z) : obj :=
     mkObj c (concat (map (cols_of k) (chain S c))) (map (load_fld k) (fields S c)).
